@@ -4,7 +4,7 @@ from x2p import impl as I
 
 HEADER = ('Require Import X2P.Base.Prelude X2P.Corr.C03.\n')
 TARGETS = ['theories/Props/C03.vo', 'theories/Corr/C03.vo']
-TITLES = ['S0', 'Data', 'Z9']
+TITLES = ['S0', 'Data', '1']          # the third title is a number that is not the sheet's own position: it must be looked up as a NAME
 COLS = 'ABCD'
 
 
@@ -36,6 +36,8 @@ def gen_workbook(rng, cyclic):
             q = rng.choice(cand)
             form = rng.random()
             pre = '' if q[0] == p[0] and rng.random() < 0.7 else rng.choice(['%s!' % TITLES[q[0]], "'%s'!" % TITLES[q[0]]])
+            if pre and TITLES[q[0]].isdigit():
+                pre, form = "'%s'!" % TITLES[q[0]], min(form, 0.5)      # a numeric title is written quoted, and (see below) before a single cell only
             if form >= 0.55 and pre.startswith("'"):
                 # a quoted sheet prefix before a RANGE is lexed wrongly when another quote precedes it (recorded under C02): keep clear
                 pre = pre.replace("'", '')
@@ -54,6 +56,8 @@ def gen_workbook(rng, cyclic):
                 t = rng.choice(cand)
                 if t[2] + n_rows - 1 > 3:
                     t = (t[0], t[1], 3 - (n_rows - 1))
+                if t[0] != p[0] and TITLES[t[0]].isdigit():
+                    t = (q[0], t[1], t[2])                     # a numeric title cannot be written unquoted
                 tpre = '' if t[0] == p[0] else '%s!' % TITLES[t[0]]
                 written_end = t[2] + rng.choice([0, 0, n_rows - 1, max(0, n_rows - 2)])
                 tgt = addr(t[1], t[2]) if written_end == t[2] and rng.random() < 0.5 else '%s:%s' % (addr(t[1], t[2]), addr(t[1], written_end))
